@@ -165,10 +165,14 @@ func execRun(t *testing.T, p *Property, rc *RunCtx) {
 	synctest.Test(t, func(t *testing.T) {
 		p.Run(rc)
 	})
+	for _, f := range rc.PostBubble {
+		f()
+	}
+	rc.PostBubble = nil
 }
 
 func newRC(p *Property, tier string, scen, sched *Tape, tracing bool) *RunCtx {
-	return &RunCtx{Prop: p.ID, Tier: tier, Scen: scen, Sched: sched, Tracing: tracing}
+	return &RunCtx{Prop: p.ID, Tier: tier, Scen: scen, Sched: sched, Tracing: tracing, Race: os.Getenv("VERIF_MODE") == "race"}
 }
 
 func replayOnce(t *testing.T, p *Property, tier string, scen, sched []int32, tracing bool) *RunCtx {
@@ -422,7 +426,7 @@ func TestWorker(t *testing.T) {
 			wo.Samples = append(wo.Samples, d)
 		}
 		// determinism re-execution of ~1% of the runs
-		if i%97 == 0 {
+		if i%97 == 0 && os.Getenv("VERIF_MODE") != "race" {
 			scen2, sched2 := mk()
 			rc2 := newRC(p, tier, scen2, sched2, false)
 			heartbeat.Store(time.Now().UnixNano())
